@@ -755,11 +755,7 @@ func (w *c14World) event(idx int, to string) bool {
 			case i == 1:
 				s = second
 			}
-			if s == state.WaitStatus {
-				t.SetToWait(state.DoneStatus)
-			} else {
-				t.SetStatus(s)
-			}
+			t.SetStatus(s)
 		}
 	}
 	switch to {
@@ -771,8 +767,14 @@ func (w *c14World) event(idx int, to string) bool {
 		} else {
 			set(state.UndoingStatus, state.ErrorStatus, state.HoldStatus)
 		}
-	case "wait": // waiting for a restart
-		set(state.DoneStatus, state.WaitStatus, state.DoStatus)
+	case "wait": // everything done, the last task waits for a restart
+		for i, t := range tasks {
+			if i == len(tasks)-1 {
+				t.SetToWait(state.DoneStatus)
+			} else {
+				t.SetStatus(state.DoneStatus)
+			}
+		}
 	case "done":
 		set(state.DoneStatus, state.DoneStatus, state.DoneStatus)
 	case "error":
@@ -1047,12 +1049,12 @@ type c14Case struct {
 }
 
 type c14State struct {
-	Path     []c14Step
-	Key      string
-	Unready  []c14ChgStat // unready changes by harness index
-	Snaps    string       // digest of the snap records (part of the key)
-	Requests int
-	Leaf     bool
+	Path     []c14Step    `json:"path"`
+	Key      string       `json:"key"`
+	Unready  []c14ChgStat `json:"unready,omitempty"` // unready changes by harness index
+	Snaps    string       `json:"snaps"`             // digest of the snap records (part of the key)
+	Requests int          `json:"requests"`
+	Leaf     bool         `json:"leaf,omitempty"`
 }
 
 type c14ChgStat struct {
@@ -1076,11 +1078,11 @@ func c14StateKey(l []c14ChgStat, snaps string) string {
 	return c14JoinKey(parts, snaps)
 }
 
-// predict computes the key of the state an event leads to ("" if not predictable): an event rewrites the task
-// statuses of one change and nothing else. Used only to skip replaying event edges that lead to known states;
-// every replayed event is compared with its prediction.
-func (st *c14State) predict(idx int, to string) string {
-	var l []c14ChgStat
+// after computes the state an event leads to without running it: an event rewrites the task statuses of one
+// change and nothing else, so the key of the target follows from the key fragments. Whenever such a state is
+// expanded its path (with the events) is replayed on a fresh fixture and the real key is compared with this one.
+func (st *c14State) after(idx int, to string) *c14State {
+	ns := &c14State{Path: c14Extend(st.Path, c14Step{K: "ev", Chg: idx, To: to}), Snaps: st.Snaps, Requests: st.Requests}
 	for _, u := range st.Unready {
 		if u.Idx == idx {
 			switch to {
@@ -1091,15 +1093,16 @@ func (st *c14State) predict(idx int, to string) string {
 				if u.Tasks == 1 {
 					u.Status = "Abort"
 				}
+			case "wait":
+				u.Status = "Wait"
 			case "done", "error":
 				continue
-			default:
-				return ""
 			}
 		}
-		l = append(l, u)
+		ns.Unready = append(ns.Unready, u)
 	}
-	return c14StateKey(l, st.Snaps)
+	ns.Key = c14StateKey(ns.Unready, ns.Snaps)
+	return ns
 }
 
 type c14Explorer struct {
@@ -1115,6 +1118,8 @@ type c14Explorer struct {
 	stopFile string // created by the first worker that confirms a violation: the others stop at their next state
 	capped    bool
 	completed int
+	dir         string
+	barrierWait time.Duration
 }
 
 // halt reports (and records) that the worker must stop: soft budget used up, or a violation confirmed somewhere.
@@ -1290,33 +1295,23 @@ func (x *c14Explorer) newState(ns *c14State) bool {
 	return true
 }
 
-// closure adds to l every state reachable from the states of l by progress events only.
+// closure adds to l every state reachable from the states of l by progress events only (computed, not run: see
+// c14State.after). Every worker computes the same list.
 func (x *c14Explorer) closure(l []*c14State) []*c14State {
 	for i := 0; i < len(l); i++ {
 		st := l[i]
 		if st.Leaf {
 			continue
 		}
-		if x.completed >= 1 && x.halt("event closure") {
-			break
-		}
 		for _, u := range st.Unready {
 			for _, to := range x.events {
 				if !c14EventEnabled(u.Status, to) {
 					continue
 				}
-				pk := st.predict(u.Idx, to)
-				if pk != "" && x.seen[pk] {
-					if x.count {
-						x.r.Add("event_edges_to_known_states_not_replayed", 1)
-					}
-					continue
+				if x.count {
+					x.r.Add("event_edges", 1)
 				}
-				ns, _ := x.step(st, c14Step{K: "ev", Chg: u.Idx, To: to})
-				if pk != "" && pk != ns.Key {
-					x.r.Add("event_predictions_wrong", 1)
-					x.noteMismatch(fmt.Sprintf("event %s(#%d) after [%s]: predicted %q, got %q", to, u.Idx, c14PathString(st.Path), pk, ns.Key))
-				}
+				ns := st.after(u.Idx, to)
 				if x.newState(ns) {
 					l = append(l, ns)
 				}
@@ -1326,19 +1321,49 @@ func (x *c14Explorer) closure(l []*c14State) []*c14State {
 	return l
 }
 
-// expand issues every request of the menu in st; returns the new states.
-func (x *c14Explorer) expand(st *c14State) []*c14State {
-	var next []*c14State
-	for _, op := range x.ops {
-		ns, _ := x.step(st, c14Step{K: "req", Op: op.Name})
-		if x.newState(ns) {
-			next = append(next, ns)
-		}
-	}
-	return next
+type c14LevelFile struct {
+	Partial bool        `json:"partial"`
+	States  []*c14State `json:"states"`
 }
 
-const c14Rule = "breadth-first over request sequences up to the bound, every request of the menu in every state, progress events (half done / being undone / [waiting] / finished / failed, on any unready change) between requests without counting towards the bound; successors by replay on a fresh fixture; states deduplicated on (kind [class of the kind when two or more changes are unready], status, affected snaps by both decodings, exclusive?) of the unready changes + snap records (dedup per worker process); non-trivial = requests issued while at least one change is unready, or with a stale-record callback"
+// exchange publishes the states this worker found at a level and collects those of all workers (file barrier in
+// $VERIF_WORK/shards/C14). The merged list is the same, in the same order, in every worker.
+func (x *c14Explorer) exchange(level int, found []*c14State, partial bool) (all []*c14State, anyPartial bool) {
+	shard, n := x.r.ShardIndex()
+	if n <= 1 {
+		return found, partial
+	}
+	name := func(i int) string { return filepath.Join(x.dir, fmt.Sprintf("L%d-%d.json", level, i)) }
+	b, _ := json.Marshal(c14LevelFile{Partial: partial, States: found})
+	if err := os.WriteFile(name(shard)+".tmp", b, 0644); err != nil {
+		eng.HarnessError("%v", err)
+	}
+	if err := os.Rename(name(shard)+".tmp", name(shard)); err != nil {
+		eng.HarnessError("%v", err)
+	}
+	deadline := time.Now().Add(x.barrierWait)
+	for i := 0; i < n; i++ {
+		var lf c14LevelFile
+		for {
+			b, err := os.ReadFile(name(i))
+			if err == nil && json.Unmarshal(b, &lf) == nil {
+				break
+			}
+			if time.Now().After(deadline) {
+				// a sibling died or is hopelessly late: go on without it, the run is not exhaustive
+				x.r.Cap("barrier", fmt.Sprintf("worker %d did not deliver its level-%d states in time", i, level))
+				lf = c14LevelFile{Partial: true}
+				break
+			}
+			time.Sleep(50 * time.Millisecond)
+		}
+		anyPartial = anyPartial || lf.Partial
+		all = append(all, lf.States...)
+	}
+	return all, anyPartial
+}
+
+const c14Rule = "breadth-first over request sequences up to the bound (a pre-existing exclusive/exempt change counts as one request), every request of the menu in every state, progress events (half done / being undone / [waiting] / finished / failed, on any unready change) between requests without counting towards the bound; successors by replay on a fresh fixture; states deduplicated on (kind [class of the kind when two or more changes are unready], status, affected snaps by both decodings, exclusive?) of the unready changes + snap records, level-synchronous across the 16 worker processes (the states found at a level are exchanged and merged before the next level is dealt out); non-trivial = requests issued while at least one change is unready, or with a stale-record callback"
 
 func (s *verifC14Suite) TestVerifC14(c *C) {
 	r := eng.Start("C14", "model_checking", 240*time.Second, 14*time.Minute)
@@ -1428,33 +1453,43 @@ func (s *verifC14Suite) TestVerifC14(c *C) {
 	mmDir := filepath.Join(eng.WorkDir(), "shards", "C14")
 	os.MkdirAll(mmDir, 0755)
 	if os.Getenv("VERIF_SHARD") == "" {
-		old, _ := filepath.Glob(filepath.Join(mmDir, "mismatch-*.txt"))
+		for _, pat := range []string{"mismatch-*.txt", "L*-*.json", "L*-*.json.tmp", "violation-found"} {
+			old, _ := filepath.Glob(filepath.Join(mmDir, pat))
+			for _, f := range old {
+				os.Remove(f)
+			}
+		}
+	}
+	if r.Sharded(16) {
+		old, _ := filepath.Glob(filepath.Join(mmDir, "L*-*.json"))
 		for _, f := range old {
 			os.Remove(f)
 		}
-		os.Remove(filepath.Join(mmDir, "violation-found"))
-	}
-	if r.Sharded(16) {
 		if n := r.Count("replay_divergences"); n > 0 {
-			eng.HarnessError("%d replays of a path prefix did not reproduce the recorded state", n)
+			eng.HarnessError("%d replays of a path prefix did not reproduce the recorded (or predicted) state", n)
 		}
-		if n := r.Count("model_mismatches") + r.Count("event_predictions_wrong"); n > 0 {
+		if n := r.Count("model_mismatches"); n > 0 {
 			files, _ := filepath.Glob(filepath.Join(mmDir, "mismatch-*.txt"))
 			for _, f := range files {
 				b, _ := os.ReadFile(f)
 				fmt.Print(string(b))
 			}
-			eng.HarnessError("%d requests disagreed with the reference model in a way that is no violation of the statement (spurious refusal, exclusive request accepted on a busy system, menu entry invalid on the idle system): the model needs calibration", n)
+			eng.HarnessError("%d requests disagreed with the reference model in a way that is no violation of the statement (spurious refusal, menu entry invalid on the idle system): the model needs calibration", n)
 		}
 		c14Finish(r, c14Rule)
 	}
-	shard, _ := r.ShardIndex()
+	shard, nshards := r.ShardIndex()
+	x.dir = mmDir
 	x.mmFile = filepath.Join(mmDir, fmt.Sprintf("mismatch-%d.txt", shard))
 	x.stopFile = filepath.Join(mmDir, "violation-found")
-	// the part every worker runs is counted by worker 0 only
+	x.barrierWait = 20 * time.Minute
+	if thorough {
+		x.barrierWait = 40 * time.Minute
+	}
+	// what every worker computes identically (merged state lists, event closures) is counted by worker 0 only
 	x.count = shard == 0
 
-	// level 0: the idle system and every pre-existing change, closed under progress events
+	// level 0: the idle system
 	idle := &c14State{}
 	{
 		w := c14New(c, menu)
@@ -1462,85 +1497,87 @@ func (s *verifC14Suite) TestVerifC14(c *C) {
 		w.close()
 	}
 	x.newState(idle)
-	roots := []*c14State{idle}
-	for _, k := range c14PreKinds {
-		ns, _ := x.step(idle, c14Step{K: "pre", Op: k})
-		if !x.newState(ns) {
-			eng.HarnessError("pre-existing %s change gives no new state", k)
+	frontier := []*c14State{idle}
+	for level := 1; level <= depth; level++ {
+		// work items of the level: every request in every state of the frontier; at level 1 also the pre-existing
+		// changes (a pre-existing change counts as one request of the sequence). Dealt round-robin.
+		type item struct {
+			st   *c14State
+			step c14Step
 		}
-		roots = append(roots, ns)
-	}
-	roots = x.closure(roots)
-	// level 1: every request on the idle system is run by every worker (it defines the common list of level-1
-	// states, and it calibrates the menu: every entry must be accepted there); the requests on the other roots are
-	// dealt out.
-	var level1 []*c14State
-	for _, op := range ops {
-		ns, out := x.step(idle, c14Step{K: "req", Op: op.Name})
-		want := "accepted"
-		if op.Stale == "mutA" || op.Stale == "setC" || op.Stale == "sneak" {
-			want = "rejected"
-		}
-		if out.Got != want && len(out.Problems) == 0 && out.Mismatch == "" {
-			r.Add("model_mismatches", 1)
-			x.noteMismatch(fmt.Sprintf("menu entry %s is not valid on the idle system: %s %s", op.Name, out.Got, out.Err))
-		}
-		if x.newState(ns) {
-			level1 = append(level1, ns)
-		}
-	}
-	level1 = x.closure(level1)
-	x.count = true
-	// deal: level-1 states (with their whole subtrees) and the non-idle roots
-	var frontier []*c14State
-	item := 0
-	for _, st := range level1 {
-		if r.Mine(item) {
-			frontier = append(frontier, st)
-		}
-		item++
-	}
-	var myRoots []*c14State
-	for _, st := range roots[1:] {
-		if r.Mine(item) {
-			myRoots = append(myRoots, st)
-		}
-		item++
-	}
-	x.completed = 1
-	timeUp := x.halt
-	// the other roots: one request level from each (what they accept joins the frontier at level 1)
-	for _, st := range myRoots {
-		if timeUp("roots") {
-			break
-		}
-		more := x.closure(x.expand(st))
-		frontier = append(frontier, more...)
-	}
-	for d := 2; d <= depth && !x.capped; d++ {
-		var next []*c14State
+		var items []item
 		for _, st := range frontier {
 			if st.Leaf {
 				continue
 			}
-			if timeUp(fmt.Sprintf("request level %d", d)) {
+			for _, op := range ops {
+				items = append(items, item{st, c14Step{K: "req", Op: op.Name}})
+			}
+			if level == 1 {
+				for _, k := range c14PreKinds {
+					items = append(items, item{st, c14Step{K: "pre", Op: k}})
+				}
+			}
+		}
+		var found []*c14State
+		local := map[string]bool{}
+		partial := false
+		x.count = true
+		for i, it := range items {
+			if !r.Mine(i) {
+				continue
+			}
+			if x.halt(fmt.Sprintf("request level %d", level)) {
+				partial = true
 				break
 			}
-			next = append(next, x.expand(st)...)
+			ns, out := x.step(it.st, it.step)
+			if level == 1 && it.step.K == "req" {
+				// calibration of the menu: on the idle system every entry is accepted (the stale-record ones refused)
+				op := menu[it.step.Op]
+				want := "accepted"
+				if op.Stale == "mutA" || op.Stale == "setC" || op.Stale == "sneak" {
+					want = "rejected"
+				}
+				if out.Got != want && len(out.Problems) == 0 && out.Mismatch == "" {
+					r.Add("model_mismatches", 1)
+					x.noteMismatch(fmt.Sprintf("menu entry %s is not valid on the idle system: %s %s", op.Name, out.Got, out.Err))
+				}
+			}
+			if !x.seen[ns.Key] && !local[ns.Key] {
+				local[ns.Key] = true
+				found = append(found, ns)
+			}
 		}
-		if x.capped {
+		x.count = shard == 0
+		all, anyPartial := x.exchange(level, found, partial)
+		var merged []*c14State
+		for _, st := range all {
+			if x.newState(st) {
+				merged = append(merged, st)
+			}
+		}
+		if anyPartial {
+			if !x.capped {
+				x.capped = true
+				r.Cap("incomplete-level", fmt.Sprintf("another worker stopped early in request level %d", level))
+			}
 			break
 		}
-		x.completed = d
-		if d < depth {
-			next = x.closure(next)
+		x.completed = level
+		if level < depth {
+			frontier = x.closure(merged)
 		}
-		frontier = next
+		if shard == 0 {
+			r.Info(fmt.Sprintf("level_%d", level), map[string]int{"requests_and_pre_existing_changes_run": len(items), "new_states_reached_by_requests": len(merged), "new_states_with_event_closure": len(frontier)})
+		}
 	}
+	_ = nshards
 	r.Add("fixtures_built", c14Fixtures)
 	r.Add("workers_total", 1)
 	if !x.capped {
 		r.Add("workers_completed_all_levels", 1)
 	}
+	r.Max("max_request_level_completed", int64(x.completed))
 	c14Finish(r, c14Rule)
 }
